@@ -610,14 +610,16 @@ def eval_C18(item):
     sid = ids[item['pick'] % len(ids)]
     how = item['how']
     arg = {'obj': d[sid], 'id': sid, 'list': [d[sid]], 'idlist': [sid]}[how]
+    # the documented default is subtree=True: half of the subtree requests rely on it
+    skw = {} if (item['subtree'] and item['pick'] % 2) else {'subtree': item['subtree']}
     try:
-        lc2 = p.get_lines(structures=arg, subtree=item['subtree'])
+        lc2 = p.get_lines(structures=arg, **skw)
         got = sorted(set(int(s.idx) for s in lc2.structures))
         want = sorted(structs[sid]['desc'] + [sid]) if item['subtree'] else [sid]
         if got != want:
             res['pred'].append('get_lines(structures=%s %r, subtree=%s) draws structures %r, expected %r' % (how, sid, item['subtree'], got, want))
         ax = FakeAxes()
-        p.plot_tree(ax, structure=arg if how in ('obj', 'id') else arg[0], subtree=item['subtree'])
+        p.plot_tree(ax, structure=arg if how in ('obj', 'id') else arg[0], **skw)
         got = sorted(set(int(s.idx) for s in ax.collections[0].structures))
         if got != want:
             res['pred'].append('plot_tree(structure=%s %r, subtree=%s) draws structures %r, expected %r' % (how, sid, item['subtree'], got, want))
@@ -632,7 +634,8 @@ def eval_C18(item):
             if len(case['shape']) == 3 and item['pick'] % 2 == 0:
                 sl = item['pick'] % case['shape'][0]
                 kw['slice'] = sl
-            p.plot_contour(ax, structure=arg if how in ('obj', 'id') else sid, subtree=item['subtree'], **kw)
+            kw.update(skw)
+            p.plot_contour(ax, structure=arg if how in ('obj', 'id') else sid, **kw)
             px = structs[sid]['pixsub'] if item['subtree'] else structs[sid]['tiown']
             full = np.zeros(int(np.prod(case['shape'])), dtype=bool)
             full[px] = True
@@ -652,6 +655,17 @@ def eval_C18(item):
                 res['pred'].append('contour of structure %d (subtree=%s) is not its mask' % (sid, item['subtree']))
         except Exception as e:
             res['pred'].append('plot_contour(structure %r, subtree=%s) raised %s: %s' % (sid, item['subtree'], type(e).__name__, str(e)[:60]))
+    # without a structure the contour outlines all pixels of the dendrogram: everything above min_value
+    if len(case['shape']) == 2:
+        ax = FakeAxes()
+        try:
+            p.plot_contour(ax)
+            mv = d.params['min_value']
+            want_all = np.asarray(d.data) > mv
+            if not ax.masks or not np.array_equal(np.asarray(ax.masks[0], dtype=bool), want_all):
+                res['pred'].append('plot_contour() without a structure does not outline the pixels above min_value')
+        except Exception as e:  # noqa
+            res['pred'].append('plot_contour() without a structure raised %s: %s' % (type(e).__name__, str(e)[:60]))
     res['tags'] += ['key=' + kk, 'reverse=%s' % item['reverse'], 'how=' + how]
     return res
 
